@@ -22,6 +22,7 @@ import (
 	"strconv"
 	"strings"
 	"sync"
+	"time"
 
 	"github.com/codenotary/immudb/embedded/sql"
 
@@ -60,6 +61,9 @@ type c12Case struct {
 	single    bool // restricted generator: autocommit statements writing at most one row
 	dd        *hx.Rng // own stream of the double-defect bias (c12_prec.go); nil = no bias
 	forced    *dml    // the next unit is this one autocommit statement (c12_prec.go)
+	sp        *hx.Rng // own stream of the value-spelling bias (c12_spell.go); nil = no bias
+	dead      bool    // a scan timed out (stalled index): the case stops
+	ckWritten bool    // R26: the engine accepted a row the reference rejects with `check` whose CHECK column was written with an implicitly converted value (sticky: the row stays)
 }
 
 func (c *c12Case) log(s string) { c.script = append(c.script, s) }
@@ -79,6 +83,12 @@ func (c *c12Case) exec(tx *sql.SQLTx, q sqlText) sqlXRes {
 		st = "ERR " + res.Err
 	}
 	c.log(q.String() + "   => " + st)
+	if res.Err == "timeout" && !c.dead {
+		// an autocommit statement did not return within sqlOpTimeout (its commit / its reads wait for an index that never
+		// catches up): the case stops
+		c.dead = true
+		c.fail("C12:stmt:does-not-return", fmt.Sprintf("the statement did not return within %s (it waits for an index that does not catch up with the committed transactions): %s", sqlOpTimeout, q.String()))
+	}
 	return res
 }
 
@@ -145,6 +155,10 @@ func (c *c12Case) verify(where string, checkRef bool) {
 	pk := sqlScan(eng, nil, sc, "t", sc.PK)
 	r.OracleChecks++
 	r.Eval(where+"|"+strconv.Itoa(len(pk.Rows))+"|"+strconv.Itoa(r.Case()), len(pk.Rows) > 0)
+	if pk.Err == "timeout" {
+		c.stalled(where, sc.PK)
+		return
+	}
 	if pk.Err != "" {
 		c.fail("C12:scan:error", "full scan through the primary index failed: "+pk.Err)
 		return
@@ -153,6 +167,10 @@ func (c *c12Case) verify(where string, checkRef bool) {
 	for _, ix := range c.idxLive {
 		s := sqlScan(eng, nil, sc, "t", ix.Cols)
 		r.OracleChecks++
+		if s.Err == "timeout" {
+			c.stalled(where, ix.Cols)
+			return
+		}
 		if s.bag() != pk.bag() {
 			c.fail("C12:index:stale-or-missing-entry", fmt.Sprintf("%s: scan through index (%s) = %s %s but through the primary key = %s", where, sc.colNames(ix.Cols), s.Err, sqlRowsShow(s.Rows, 10), sqlRowsShow(pk.Rows, 10)))
 		}
@@ -242,6 +260,9 @@ func (c *c12Case) verify(where string, checkRef bool) {
 					cause = ":update-set-null"
 				}
 			}
+			if cause == "" && c.ckWritten {
+				cause = c12R26
+			}
 			c.fail("C12:constraint:check-violated"+cause, fmt.Sprintf("%s: CHECK is false for the live row %s", where, sqlRowsShow([][]c15Val{row}, 1)))
 		}
 	}
@@ -255,6 +276,13 @@ func (c *c12Case) verify(where string, checkRef bool) {
 			c.adoptMaxPK()
 		}
 	}
+}
+
+// a scan did not return within sqlOpTimeout: the index never reaches the committed transaction (its indexer fails on
+// an entry of that transaction and retries forever); every later read through that index waits too — the case stops
+func (c *c12Case) stalled(where string, cols []int) {
+	c.dead = true
+	c.fail("C12:index:indexing-stalled-after-commit", fmt.Sprintf("%s: the scan through index (%s) did not return within %s — the index does not catch up with the last committed transaction (every read through it blocks in WaitForIndexingUpto)", where, c.sc.colNames(cols), sqlOpTimeout))
 }
 
 func (c *c12Case) cause() string {
@@ -349,6 +377,10 @@ func (c *c12Case) compareStmt(d *dml, txt sqlText, pred refOut, engErr string, e
 		if pred.Err == "invalid-value" && (c.autoTaint || c.explicitAbove(d)) {
 			cause = ":explicit-autoincrement-key-in-same-tx"
 		}
+		if pred.Err == "check" && c.implicitOnCheck(d) {
+			cause = c12R26 // R26: the CHECK saw the value as written, the row stores the converted one (c12_spell.go)
+			c.ckWritten = true
+		}
 		if c.r4Hit {
 			// R4 (see deletedInTx): the key of the rejected row was deleted earlier in this transaction and tx.get still finds
 			// it: ON CONFLICT DO NOTHING skips the row before max-len / UNIQUE / pkMustExist are looked at, UPSERT passes pkMustExist
@@ -380,6 +412,12 @@ func (c *c12Case) compareStmt(d *dml, txt sqlText, pred refOut, engErr string, e
 			if c.intxTaint {
 				cause = ":secondary-index-view-in-tx"
 			}
+		}
+		if engErr == "check" && c.implicitOnCheck(d) {
+			cause = c12R26
+		}
+		if engErr == "not-comparable" && c.implicitOnIndexed(d) {
+			cause = c12R25 // R25: deprecateIndexEntries compares the row's current value with the value AS WRITTEN (c12_spell.go)
 		}
 		c.fail("C12:stmt:spurious-failure:"+engErr+cause, fmt.Sprintf("the statement is valid (reference: ok, %d rows) but the engine failed with %s: %s", pred.Updated, engErr, txt.String()))
 	case pred.Err != "" && engErr != "":
@@ -532,6 +570,9 @@ func (c *c12Case) dmlOpts() dmlOpts {
 }
 
 func (c *c12Case) unit() {
+	if c.dead {
+		return
+	}
 	r, rng, sc := c.r, c.rng, c.sc
 	kind := rng.Intn(100)
 	if c.single || c.forced != nil {
@@ -551,6 +592,10 @@ func (c *c12Case) unit() {
 		r.Count("unit.explicit")
 	}
 	before := sqlScan(c.env.eng, nil, sc, "t", sc.PK)
+	if before.Err == "timeout" {
+		c.stalled("before the next unit", sc.PK)
+		return
+	}
 	pend := c.ref.clone()
 	vers := c12Vers{}
 	c.intxTaint, c.autoTaint, c.delTaint = false, false, false
@@ -566,6 +611,7 @@ func (c *c12Case) unit() {
 				d = sqlGenDML1(rng, sc, c.dmlOpts(), c.ref.rows)
 			}
 			c.maybeDoubleDefect(d, pend)
+			c.maybeSpell(d)
 		}
 		stmts = append(stmts, d)
 		txts = append(txts, d.text(sc, "t", rng.U64()))
@@ -742,6 +788,10 @@ func (c *c12Case) unit() {
 						}
 					}
 				}
+				if failed == "check" && c.implicitOnCheck(failedStmt) {
+					cz = c12R26
+					c.ckWritten = true
+				}
 				c.fail("C12:must-fail:accepted:"+failed+cz, "a statement of the implicit transaction must fail with "+failed+" but the engine committed: "+strings.Join(sqls, "; "))
 				pend.rows, pend.maxPK = nil, -1
 			case failed == "" && res.Err != "":
@@ -753,6 +803,20 @@ func (c *c12Case) unit() {
 					cz = "" // R4 / R9 end in 'key already exists' only (see compareStmt)
 					if c.intxTaint {
 						cz = ":secondary-index-view-in-tx"
+					}
+				}
+				if res.Err == "check" {
+					for _, d := range stmts {
+						if c.implicitOnCheck(d) {
+							cz = c12R26
+						}
+					}
+				}
+				if res.Err == "not-comparable" {
+					for _, d := range stmts {
+						if c.implicitOnIndexed(d) {
+							cz = c12R25
+						}
 					}
 				}
 				c.fail("C12:stmt:spurious-failure:"+res.Err+cz, "all statements are valid for the reference but the engine failed with "+res.Err+": "+strings.Join(sqls, "; "))
@@ -1027,7 +1091,7 @@ func (c *c12Case) runSequential(thorough bool, variant int) {
 	if thorough {
 		n += rng.Intn(60)
 	}
-	for u := 0; u < n; u++ {
+	for u := 0; u < n && !c.dead; u++ {
 		c.unit()
 		if u == n/2 && rng.Intn(2) == 0 {
 			// a secondary index on the populated table
@@ -1377,6 +1441,8 @@ func runC12(r *hx.Result, rng *hx.Rng, thorough bool, replay string) error {
 		r.Rule = "replay of a recorded failure: the recorded SQL script executed again on a fresh store"
 		return sqlReplay(r, replay)
 	}
+	sqlOpTimeout = 20 * time.Second
+	defer func() { sqlOpTimeout = 0 }()
 	rng = rng.Fork() // hx.NewRng(seed+1) is hx.NewRng(seed) shifted by one draw: fork once so that seeds give unrelated streams
 	r.Rule = "evaluation = one committed transaction after which the whole table was scanned through every index and all constraints checked (plus every aborted unit checked for traces); nontrivial = the table was non-empty"
 	cases := 36
@@ -1387,10 +1453,12 @@ func runC12(r *hx.Result, rng *hx.Rng, thorough bool, replay string) error {
 	// older modes generate for a seed do not change
 	cp := *rng
 	ddRoot := hx.NewRng(cp.U64() ^ 0xdd0dd0dd)
+	spRoot := hx.NewRng(cp.U64() ^ 0x5be11ed5)
 	for i := 0; i < cases; i++ {
 		c := &c12Case{r: r, rng: rng.Fork()}
 		if i%6 < 4 {
 			c.dd = ddRoot.Fork()
+			c.sp = spRoot.Fork()
 		}
 		switch {
 		case i%6 == 4:
@@ -1442,7 +1510,23 @@ func runC12(r *hx.Result, rng *hx.Rng, thorough bool, replay string) error {
 			}
 		}
 	}
-	for _, k := range []string{"mode.precedence", "dd.sweep", "dd.injected", "dd.key-long+key-omit", "dd.key-long+key-null", "dd.check+key-null", "dd.key-omit+nn-omit", "dd.key-long+val-long",
+	// value spellings (c12_spell.go): the same stored value written in different ways into a PRIMARY KEY / UNIQUE index
+	ns := 8
+	if thorough {
+		ns = 32
+	}
+	for i := 0; i < ns; i++ {
+		c := &c12Case{r: r, rng: rng.Fork()}
+		c.runSpellings(thorough, i)
+		if i%4 == 3 {
+			if err := r.Flush(); err != nil {
+				return err
+			}
+		}
+	}
+	for _, k := range []string{"mode.spellings", "spell.sweep", "spell.injected", "spell.meet.pk", "spell.meet.unique", "spell.meet.pk.below-stored-precision", "spell.meet.unique.below-stored-precision",
+		"spell.key-agreement-checked", "spell.pos.ins", "spell.pos.set", "spell.pos.where", "spell.type.timestamp", "spell.type.integer", "spell.type.float64", "spell.type.uuid", "spell.type.varchar", "spell.type.boolean",
+		"mode.precedence", "dd.sweep", "dd.injected", "dd.key-long+key-omit", "dd.key-long+key-null", "dd.check+key-null", "dd.key-omit+nn-omit", "dd.key-long+val-long",
 		"dd.auto-stale+val-long", "dd.key-exists+val-long", "unit.auto", "unit.explicit", "unit.implicit-multi", "unit.aborted", "unit.committed", "mode.interleaved", "mode.goroutines", "interleaved.commit.ok",
 		"mode.race-scheduled", "mode.race-goroutines", "race.commit.ok", "race.commit.read-conflict", "race.tuple.hot", "race.conflict.unique.detected-at-commit"} {
 		if r.Distribution[k] == 0 {
